@@ -514,6 +514,17 @@ def oracle_c09(rec, quiescent):
             for bid in sent_ids:
                 if bid not in started and bid not in finished:
                     fails.append(('C09 / queued transfer silently lost at termination', '%s id %s' % (snd, bid)))
+    elif quiescent:
+        # no SESS_TERM reached the wire (terminate() before the session exists, close(), peer disconnect): an endpoint
+        # that has closed must still have reported every bundle it accepted and never started
+        for snd in 'AB':
+            if not rec.snap[snd]['closed']:
+                continue
+            started = [str(a[0]) for (n, a) in signals(rec, snd) if n == 'send_bundle_started']
+            finished = [str(a[0]) for (n, a) in signals(rec, snd) if n == 'send_bundle_finished']
+            for bid in [str(x) for x in range(1, len(rec.queued[snd]) + 1)]:
+                if bid not in started and bid not in finished:
+                    fails.append(('C09 / queued transfer silently lost when the connection closed', '%s id %s' % (snd, bid)))
     return fails
 
 
